@@ -288,6 +288,10 @@ def generate(tier, seed):
                     "rows_without_columns", "string", "dict"):
             for where in (("anchors", "comparisons", "pdist") if thorough else ("anchors", "pdist") if bad != "list" else ("comparisons",)):
                 yield "reject", {"cls": cls, "bad": bad, "where": where}, True
+    for cls in CLASSES:
+        big = {k: v for k, v in {"insertion_weight": 3, "deletion_weight": 5, "substitution_weight": 7, "alpha_weight": 100, "beta_weight": 90,
+                                 "cdr1_weight": 60, "cdr2_weight": 80, "cdr3_weight": 100}.items() if k in ACCEPTS[cls]}
+        yield "metric", {"cls": cls, "w": big, "anchors": WIT, "comps": WIT[:3]}, True          # entries beyond 65535
     n_rand = 3000 * TS if thorough else 150
     for i in range(n_rand):
         cls = CLASSES[i % 6]
